@@ -47,6 +47,8 @@ bool g_excl_sep = false;       // pattern.runtime_metadata_contains_separator ex
 bool g_excl_rtnamed = false;   // pattern.runtime_metadata_with_named_args excluded
 int g_part = 0;                // 0 both, 1 direct, 2 e2e
 bool g_printable_check = true; // keep quill's default BackendOptions::check_printable_char
+bool g_must_time = false;      // parameter must_time=1
+bool g_no_runtime_metadata = false; // parameter no_runtime_metadata=1 (C13's job: the known runtime-metadata classes belong to C12)
 
 char const* const kSepClass = "pattern.runtime_metadata_contains_separator";
 char const* const kRtNamedClass = "pattern.runtime_metadata_with_named_args";
@@ -1127,6 +1129,7 @@ void e2e_case(Choices& c, Report& r)
 
   // ---- logger pattern and options ----
   uint32_t must = 0;
+  if (g_must_time) must |= bit(A_TIME); // C13's end-to-end job: every logger pattern renders the time
   if (c.weighted({7, 1}) == 0) must |= bit(A_MESSAGE);
   size_t const focus = c.weighted({3, 2, 1});
   if (focus == 1) must |= bit(A_FILE_NAME) | bit(A_LINE_NUMBER) | bit(A_CALLER_FUNCTION);
@@ -1268,7 +1271,7 @@ void e2e_case(Choices& c, Report& r)
     e.has_named = false;
     auto const lvl = static_cast<quill::LogLevel>(e.level);
 
-    size_t const kind = c.weighted({5, 2, 4, 2});
+    size_t const kind = c.weighted({5, 2, g_no_runtime_metadata ? 0u : 4u, 2});
     std::string message;
     std::string desc;
     if (kind == 0 || kind == 1)
@@ -1536,6 +1539,8 @@ void harness_init(Params const& p)
   std::string part = param_str(p, "part", "both");
   g_part = part == "direct" ? 1 : part == "e2e" ? 2 : 0;
   g_printable_check = param_int(p, "printable_check", 1) != 0;
+  g_must_time = param_int(p, "must_time", 0) != 0;
+  g_no_runtime_metadata = param_int(p, "no_runtime_metadata", 0) != 0;
   // Timezone::LocalTime cases: the libc reference uses localtime_r under the same zone. A zone that differs from GMT by a
   // non-integral number of hours and has DST, so that a logger formatting in the wrong zone always shows
   setenv("TZ", param_str(p, "tz", "America/St_Johns").c_str(), 1);
